@@ -90,6 +90,92 @@ Ltac zcomp :=
 Ltac pylraZ := first [ pylra | zcomp; pylra ].
 Ltac pyrunZ := pyrunA_using pylraZ.
 
+
+(* the same evaluator with call-by-value at every bind (used for long straight-line arithmetic) *)
+Ltac pyrunC_using tac :=
+  whnf_lhs;
+  lazymatch goal with
+  | |- ?l = _ =>
+    tryif is_canon l then expose_R else
+    first [
+      lazymatch l with
+      | bind ?e ?k =>
+          tryif is_canon e then
+            lazymatch e with
+            | VErr _ => rewrite (bind_err _ k)
+            | _ => rewrite (bind_ok e k) by reflexivity; cbv beta
+            end
+          else
+            let H := fresh "Hev" in
+            eassert (H : e = _) by (pyV_using tac; py_canon_refl);
+            rewrite H; clear H
+      | VTuple ?xs => first_noncanon xs ltac:(fun x =>
+            let H := fresh "Hev" in
+            eassert (H : x = _) by (pyrunC_using tac; py_canon_refl); rewrite H; clear H)
+      | VList ?xs => first_noncanon xs ltac:(fun x =>
+            let H := fresh "Hev" in
+            eassert (H : x = _) by (pyrunC_using tac; py_canon_refl); rewrite H; clear H)
+      | VObj _ ?xs => first_noncanon xs ltac:(fun x =>
+            let H := fresh "Hev" in
+            eassert (H : x = _) by (pyrunC_using tac; py_canon_refl); rewrite H; clear H)
+      | _ =>
+          pose_stuck;
+          lazymatch goal with
+          | py_stuck := ?s |- _ =>
+              clear py_stuck;
+              lazymatch s with
+              | bind ?e ?k =>
+                  let H := fresh "Hev" in
+                  eassert (H : bind e k = _) by (pyrunC_using tac; py_canon_refl);
+                  rewrite H; clear H
+              | Rltb _ _ => py_decide_at s tac
+              | Rleb _ _ => py_decide_at s tac
+              | Reqb _ _ => py_decide_at s tac
+              | _ =>
+                  first [ match goal with H : s = _ |- _ => rewrite H end
+                        | pyC_eval_arg s tac
+                        | py_user_rw tac
+                        | idtac "pyrunC: stuck on" s; fail 1 ]
+              end
+          end
+      end;
+      pyrunC_using tac
+    | idtac ]
+  end
+with pyC_eval_arg s tac :=
+  lazymatch s with
+  | ?g ?a =>
+      first [ pyC_eval_arg g tac
+            | lazymatch type of a with
+              | val _ =>
+                  tryif is_canon a then fail else
+                  (let H := fresh "Harg" in
+                   eassert (H : a = _) by (pyrunC_using tac; py_canon_refl);
+                   rewrite H; clear H)
+              end ]
+  end
+(* call-by-value evaluation of [e] in a goal [e = ?v]: arguments of type val first (innermost
+   first), then the call itself; nested arithmetic is linear instead of quadratic this way *)
+with pyV_using tac :=
+  lazymatch goal with
+  | |- ?e = _ =>
+      tryif is_canon e then idtac else
+      first [ pyV_arg e tac; pyV_using tac | pyrunC_using tac ]
+  end
+with pyV_arg s tac :=
+  lazymatch s with
+  | ?g ?a =>
+      first [ pyV_arg g tac
+            | lazymatch type of a with
+              | val _ =>
+                  tryif is_canon a then fail else
+                  (let H := fresh "Harg" in
+                   eassert (H : a = _) by (pyV_using tac; py_canon_refl);
+                   rewrite H; clear H)
+              end ]
+  end.
+Ltac pyrunC := pyrunC_using pylra.
+
 (* ---------------------------------------------------------------- reduce_deg *)
 Ltac2 Set Whnf.is_blocked as old := fun c =>
   Ltac2.Bool.or (old c) (Ltac2.Constr.equal c '@fmod_py).
